@@ -85,6 +85,23 @@ fn generate(s: &mut Session) {
         s.count("family:degenerate");
         submit_solve(s, &p, &st, "c03");
     }
+    // re-solve histories on one solver object (stale report fields must not survive)
+    for k in 0..s.budget(300, 6000) {
+        let h = plant_history(s, k % 4 == 0);
+        let mut st = random_sets(s);
+        if k % 5 == 4 {
+            st.max_iter = 2 + s.rng.below(10) as u32;
+        }
+        submit_history(s, &h, &st, "c03");
+    }
+    // objectives scaled over many decades
+    for k in 0..s.budget(250, 5000) {
+        let p = plant_cost_scaled(s, k % 4 == 0);
+        let mut st = random_sets(s);
+        st.eq = k % 5 != 0;
+        s.count("family:cost-scaled-qp");
+        submit_solve(s, &p, &st, "c03");
+    }
     // the modelled functions on constructed inputs (correspondence + their own oracles)
     gen_components(s, 2.0);
 }
